@@ -82,7 +82,7 @@ fn check(ops: &[Op], st: &mut Stats) -> String {
 }
 
 fn alphabet() -> Vec<Op> {
-    let mut v = vec![Op::Tcp, Op::Udp(None), Op::Udp(Some(40000)), Op::Relay, Op::Mode(true), Op::Mode(false), Op::Admin(Some("secret".into())), Op::Admin(Some("0123456789abcdef".into())), Op::Admin(None), Op::Reqi(7), Op::Flags(0), Op::Flags(0x0ffc), Op::Flags(36),
+    let mut v = vec![Op::Tcp, Op::Udp(None), Op::Udp(Some(40000)), Op::Relay, Op::Mode(true), Op::Mode(false), Op::Admin(Some("secret".into())), Op::Admin(Some("0123456789abcdef".into())), Op::Admin(Some("0123456789abcde\u{e9}xyz".into())), Op::Admin(Some("p\u{e4}ss\u{65e5}".into())), Op::Admin(None), Op::Reqi(7), Op::Flags(0), Op::Flags(0x0ffc), Op::Flags(36),
                      Op::Prefix(Some('!')), Op::Prefix(Some('\u{a7}')), Op::Prefix(None), Op::Iname(Some("verif".into())), Op::Iname(Some("A-16-char-name-x".into())), Op::Iname(None), Op::Interval(Some(500)), Op::Interval(None), Op::Interval(Some(65535)), Op::Interval(Some(65001)), Op::Interval(Some(65536)), Op::Interval(Some(u64::MAX))];
     for i in 0..10 { v.push(Op::Flag(i, true)); } for i in [0usize, 1, 5, 9] { v.push(Op::Flag(i, false)); }
     v.push(Op::Other(0)); v.push(Op::Other(2));
